@@ -291,6 +291,7 @@ def _perturb(a, lib):
 class C18(E1):
     ID = "C18"
     WORLD_KW = {"keep_raw": True}
+    LATE_FIN = 0.3
     SIZES = {"quick": (32, 32), "thorough": (128, 96)}
     RULE = ("the C01 workload; the well-formedness predicates of the "
             "statement on every emitted action; value laws (==, repr "
@@ -299,8 +300,13 @@ class C18(E1):
             "against non-actions; non-trivial = at least 6 actions of at "
             "least 3 kinds examined")
     ASSUMPTIONS = [
-        "only actions and pairs arising in simulated runs (plus copies and "
-        "one-field perturbations of them) are examined",
+        "actions and pairs arising in simulated runs (incl. late-finalised "
+        "online histories and the tabulated Mixed planner), copies and "
+        "one-field perturbations of them, and 10 directly constructed "
+        "actions per run are examined",
+        "repr round-trip is evaluated in a namespace holding the action "
+        "classes, StorageType, sys and numpy (as np): the tabulated planner "
+        "emits numpy integers whose repr names np under numpy 2",
         "iteration is enumerated in full only for spans <= 10000 steps; "
         "longer spans are probed by len and membership",
     ]
@@ -310,6 +316,13 @@ class C18(E1):
         from ..world import lib
         L = lib()
         ns = {"sys": sys, "StorageType": L.StorageType}
+        # reprs of numpy scalar arguments (tabulated Mixed planner) name
+        # numpy as np / numpy; the property does not fix the namespace
+        try:
+            import numpy
+            ns["np"] = ns["numpy"] = numpy
+        except ImportError:
+            pass
         for nm in ("Forward", "Reverse", "Copy", "Move", "EndForward",
                    "EndReverse"):
             ns[nm] = getattr(L, nm, None) or getattr(
